@@ -54,7 +54,8 @@ def cases(tier, rng):
         return out
     for r in ["C", "A", "Eb", "F#", "Bb", "D", "G", "E"]:
         for semis in ([0, 4, 7, 10, 14, 17, 21], [0, 3, 7, 10, 14, 17, 21], [0, 4, 7, 11, 14, 17, 21], [0, 4, 7, 10, 14, 18, 21],
-                      [0, 3, 6, 10, 13, 17, 20]):
+                      [0, 3, 6, 10, 13, 17, 20], [0, 4, 6, 10, 13, 17, 21], [0, 4, 6, 10, 14, 18, 21], [0, 4, 8, 10, 14, 17, 21],
+                      [0, 4, 6, 10, 13, 18, 20]):
             for n in (5, 6, 7):
                 ch = stack(r, semis[:n])
                 for i in range(n):
@@ -62,6 +63,9 @@ def cases(tier, rng):
     for t in itertools.product(POOL21, repeat=3):
         yield Case("chords.both", [list(t)], "triple", kind=("triple",))
     yield Case("chords.both", [[]], "trivial", kind=("trivial",))
+    for a_, b_ in (("C#", "Cbb"), ("C##", "Cb"), ("F#", "Fbb"), ("Bb", "B##"), ("G", "Gbbb"), ("E##", "Ebb"), ("A", "A"), ("Db", "D"), ("D", "Db"),
+                   ("Ab", "Abbb")):
+        yield Case("chords.both", [[a_, b_]], "trivial/same-letter", kind=("trivial",))
     for a in POOL21:
         yield Case("chords.both", [[a]], "trivial", kind=("trivial",))
     for a in POOL21[::2]:
@@ -121,6 +125,12 @@ def oracle(c, obs):
         if len(chord) == 1:
             return None if short == chord and long_ == chord else "single note: not the note itself"
         want = [intervals.determine(chord[0], chord[1])]
+        if chord[0][0] == chord[1][0]:
+            # two names on one letter: the documented answer is the kind of unison, by the direction of the alteration
+            x, y = net(chord[0]), net(chord[1])
+            name = "major unison" if x == y else "augmented unison" if x < y else "minor unison" if x - y == 1 else "diminished unison"
+            if short != [name] or long_ != [name]:
+                return "two notes on one letter (%+d then %+d): answered %s, the documented answer is %r" % (x, y, short, name)
         return None if short == want and long_ == want else "two notes: not the interval name"
     if not isinstance(short, list) or not isinstance(long_, list) or len(short) != len(long_):
         return "long-form and shorthand-form answers differ in length"
